@@ -100,6 +100,9 @@ class _Sentinel(object):
     return '<sentinel %d>' % self.i
 
 
+_MISSING = object()
+
+
 def _is_undef(v):
   return isinstance(v, ag_variables.Undefined)
 
@@ -168,12 +171,35 @@ class Monitor(object):
     composite = [not re.match(r'^[A-Za-z_][A-Za-z0-9_]*$', n) for n in symbol_names]
     if any(composite):
       self.stats['composite_entry'] += 1
+    # the support symbols of a composite entry must be variables that are defined here
+    # (composites need all support symbols live into the statement)
+    import ast as _ast
+    for i, n in enumerate(symbol_names):
+      if not composite[i]:
+        continue
+      try:
+        roots = [x.id for x in _ast.walk(_ast.parse(n, mode='eval')) if isinstance(x, _ast.Name)]
+      except SyntaxError:
+        roots = []
+      for rname in roots:
+        val = frame.f_locals.get(rname, frame.f_globals.get(rname, _MISSING))
+        if val is _MISSING or _is_undef(val):
+          self.bad(kind + ':composite-state-entry-with-undefined-support-symbol', {'name': n, 'symbol': rname})
+          return
     # position by position the same variables
     for i, n in enumerate(symbol_names):
       try:
         v = self._eval(frame, n)
         missing = False
-      except (NameError, AttributeError, KeyError):
+      except NameError as e:
+        if composite[i]:
+          # a composite state entry whose support symbol is not a variable here (programs never
+          # read unbound variables, so this cannot come from the user program)
+          self.bad(kind + ':composite-state-entry-with-unbound-support-symbol', {'name': n, 'exc': repr(e)[:120]})
+          return
+        missing = True
+        v = None
+      except (AttributeError, KeyError):
         missing = True
         v = None
       if missing:
